@@ -146,6 +146,27 @@ Theorem C37_region_any_schedule : forall w sg, 2 <= w ->
 Proof. exact region_par_eq_seq. Qed.
 Print Assumptions C37_region_any_schedule.
 
+(* every name that a body uses in ONE declared role (rho: reduction with one operator of the string,
+   or lastprivate by plain assignment / as a loop index), at whatever nesting depth of conditionals,
+   range loops and nested pranges, gets exactly the declared clause from the compiler model *)
+Theorem C37_uniform_names_classified : forall rho r x,
+  rho (r_tgt r) = CFirstLast -> uses rho (r_body r) = true ->
+  x = r_tgt r \/ assignedb x (r_body r) = true ->
+  classify r x = rho x /\ (rho x = CFirstLast \/ exists o, rho x = CRed o /\ omp_reduction_op o = true).
+Proof. exact classify_declared. Qed.
+Print Assumptions C37_uniform_names_classified.
+
+(* hence a body that is well-formed for the declared roles is well-formed for the computed
+   classification, and C37_region_any_schedule applies to it *)
+Theorem C37_declared_region_wf : forall fx r rho Df,
+  rho (r_tgt r) = CFirstLast -> uses rho (r_body r) = true ->
+  (forall x, x <> r_tgt r -> assignedb x (r_body r) = false -> rho x = classify r x) ->
+  wf rho [r_tgt r] (r_body r) = Some Df ->
+  region_errors fx r = [] ->
+  region_wf fx r = Some Df.
+Proof. exact declared_region_wf. Qed.
+Print Assumptions C37_declared_region_wf.
+
 (* FULL statement "every accepted body is classified soundly" is false for the code as it is: *)
 Theorem C37_nonomp_inplace_operator_refuted : sharing_unsound r_shl.
 Proof. exact shl_unsound. Qed.
